@@ -377,6 +377,11 @@ func vc_cellLength_ensures_len(data []byte, pos int, typ byte, metadata uint16, 
 	return err == nil && n == specCellLen(data, pos, typ, metadata)
 }
 
+// a cell never has a negative length and ends inside the buffer
+func vc_cellLength_ensures_bounds(data []byte, pos int, typ byte, metadata uint16, n int, err error) bool {
+	return n >= 0 && n <= len(data)-pos
+}
+
 // ---- DECIMAL (decimal2bin layout) ----
 
 // k-th byte of the value after undoing the sign-bit flip and, for negatives, the byte inversion
